@@ -19,7 +19,7 @@ CONFIG = dict(
                  "GetOldest does not change recency (its doc comment describes a pure read)",
                  "Add/Resize/ContainsOrAdd/PeekOrAdd return the number of evicted entries (named result 'evicted int')"],
     units=[
-        dict(test="TestC29Model", quick=20000, thorough=4800000, shards=16, steps=60),
+        dict(test="TestC29Model", quick=20000, thorough=3200000, shards=16, steps=60),
         dict(test="FuzzC29", kind="fuzz", fuzztime="60s", tiers=["thorough"]),
     ],
 )
